@@ -11,6 +11,7 @@ EXTENDS Discovery, Json, IOUtils
 H == ndJsonDeserialize(IOEnv.TRACE_FILE)
 ToSetOf(x) == {x[i] : i \in 1..Len(x)}
 ObsOf(o, Agents, Comps) == [dirC |-> o.dirC, dirR |-> [c \in Comps |-> ToSetOf(o.dirR[c])], viewC |-> o.viewC,
+                            dirA |-> ToSetOf(o.dirA), viewA |-> [a \in Agents |-> ToSetOf(o.viewA[a])],
                             viewR |-> [a \in Agents |-> [c \in Comps |-> ToSetOf(o.viewR[a][c])]]]
 BadOf(h) ==
   LET Agents == ToSetOf(h.agents)  Comps == ToSetOf(h.comps) IN
